@@ -37,3 +37,4 @@ META = dict(
          "template is covered by C01/C02, not re-proved here); Go goroutine scheduling irrelevant to this property (see C05).",
     technique="Lean 4 proof (induction over cells) + differential correspondence of vectorised runs + single-cell re-run oracle",
 )
+READY = True
